@@ -11,6 +11,7 @@ import (
 	"math/rand"
 	"os"
 	"strings"
+	"time"
 
 	"verif/harness/term"
 )
@@ -43,23 +44,43 @@ func (g *gen) emit(fn string, args ...T) {
 	g.w.WriteString(res.String())
 	g.w.WriteByte('\n')
 	g.n++
+	if hung {
+		g.w.Flush()
+		os.Exit(0)
+	}
 }
 
 type handler func(args []T) T
 
 var handlers = map[string]handler{}
 
-func call(fn string, args []T) (res T) {
+// hung is set when a call did not return within callTimeout: the process stops after reporting it (the stuck
+// goroutine may hold locks that every later call needs)
+var hung bool
+
+const callTimeout = 20 * time.Second
+
+func call(fn string, args []T) T {
 	h, ok := handlers[fn]
 	if !ok {
 		return term.A("UNKNOWN-FN")
 	}
-	defer func() {
-		if r := recover(); r != nil {
-			res = term.A("PANIC")
-		}
+	done := make(chan T, 1)
+	go func() {
+		defer func() {
+			if r := recover(); r != nil {
+				done <- term.A("PANIC")
+			}
+		}()
+		done <- h(args)
 	}()
-	return h(args)
+	select {
+	case r := <-done:
+		return r
+	case <-time.After(callTimeout):
+		hung = true
+		return term.A("HANG")
+	}
 }
 
 // generators per property: name -> function
